@@ -2,6 +2,7 @@ package catalog
 
 import (
 	"encoding/json"
+	"fmt"
 	"strconv"
 
 	jschemaLib "github.com/jsightapi/jsight-schema-go-library"
@@ -23,7 +24,7 @@ func UnmarshalJSightSchema(
 			if e, ok := r.(error); ok {
 				err = e
 			} else {
-				panic(r)
+				err = fmt.Errorf("%v", r)
 			}
 		}
 	}()
